@@ -92,7 +92,7 @@ fn gen_model(r: &mut Rng, kind: &str) -> LinearModel {
     // a constant term in the objective (what `min 2x + 10` compiles to), for both directions
     if !matches!(m.optimization_type(), OptimizationType::Satisfy) && r.chance(1, 2) {
         let (o, t, _, c, v, d) = m.into_parts();
-        return LinearModel::new_from_parts(o, t, if small { *r.pick(&[0.25, -0.5, 0.125, -0.25, 0.0625]) } else { *r.pick(&[10.0, -3.0, 0.5, 7.0, -12.5]) }, c, v, d);
+        return LinearModel::new_from_parts(o, t, if small { *r.pick(&[0.25, -0.5, 0.125, -0.25, 0.0625]) } else if kind == "bigint" { *r.pick(&[10.0, -3.0, 0.5, 7.0, -12.5, -30.0, 40.0, -50.0, 25.0]) } else { *r.pick(&[10.0, -3.0, 0.5, 7.0, -12.5]) }, c, v, d);
     }
     m
 }
@@ -156,7 +156,7 @@ fn run_solver(m: &LinearModel, k: usize) -> Value {
 pub fn limit_options() -> Vec<(Option<std::time::Duration>, Option<f64>)> {
     use std::time::Duration;
     let tls = [None, Some(Duration::from_nanos(0)), Some(Duration::from_nanos(1000)), Some(Duration::from_micros(30)), Some(Duration::from_secs(5))];
-    let gaps = [None, Some(0.0), Some(1e-9), Some(0.5), Some(10.0), Some(-1.0), Some(f64::NAN), Some(f64::INFINITY)];
+    let gaps = [None, Some(0.0), Some(1e-9), Some(0.2), Some(0.5), Some(10.0), Some(-1.0), Some(f64::NAN), Some(f64::INFINITY)];
     let mut out = Vec::new();
     for t in tls.iter() { for g in gaps.iter() { out.push((*t, *g)); } }
     out
@@ -173,6 +173,19 @@ fn main() {
             let mut idx = 0;
             if kind == "all" {
                 for m in corpus() { writeln!(f, "{}", model_json(idx, &m, "lp")).unwrap(); idx += 1; }
+            }
+            if kind == "bigint" {
+                // knapsacks whose constant term shrinks (or flips) the reported value: where a relative gap measured with and
+                // without the constant part ways (the witness of finding F47 and two variations)
+                for (off, dirmax) in [(-70.0, true), (-45.0, true), (60.0, false)] {
+                    let mut m = LinearModel::new();
+                    for nm in ["a", "b", "c", "d"] { m.add_variable(nm, VariableType::Boolean); }
+                    if dirmax { m.add_constraint(vec![23.0, 32.0, 25.0, 18.0], Comparison::LessOrEqual, 49.0); m.set_objective(vec![51.0, 50.0, 37.0, 27.0], OptimizationType::Max); }
+                    else { m.add_constraint(vec![23.0, 32.0, 25.0, 18.0], Comparison::GreaterOrEqual, 40.0); m.set_objective(vec![-51.0, -50.0, -37.0, -27.0], OptimizationType::Max); }
+                    let (o, t, _, c, v, d) = m.into_parts();
+                    let m = LinearModel::new_from_parts(o, t, off, c, v, d);
+                    writeln!(f, "{}", model_json(idx, &m, "bigint")).unwrap(); idx += 1;
+                }
             }
             for i in 0..n {
                 let k = if kind == "all" { ["lp", "lp", "int", "mixed"][i % 4] } else { kind };
